@@ -262,6 +262,7 @@ class NFA(fa.FA):
         InvalidSymbolError
             If this NFA has invalid symbols in the transition dictionary.
         """
+        self._validate_reserved_names()
         for start_state, paths in self.transitions.items():
             self._validate_transition_invalid_symbols(start_state, paths)
             self._validate_transition_end_states(start_state, paths)
